@@ -29,7 +29,7 @@ fi
 cd /tmp
 W=${W:-8}
 for w in $(seq 0 $((W-1))); do
-  ( ulimit -v 6000000; "$S/bin/simworker" -profile "$PROF" -from $((FROM+w)) -stride $W -n $((N/W)) -maxviol 5 ${PROP:+-prop $PROP} > "$S/out.$w" 2> "$S/err.$w" ) &
+  ( ulimit -v 6000000; "$S/bin/simworker" -profile "$PROF" -from $((FROM+w)) -stride $W -n $((N/W)) -maxviol 5 -known /verif/known_findings.txt ${PROP:+-prop $PROP} > "$S/out.$w" 2> "$S/err.$w" ) &
 done
 wait
 cat "$S"/out.* | grep SUMMARY | cut -c9- | jq -s -c '{runs:(map(.runs)|add),nontrivial:(map(.nontrivial)|add),violations:(map(.violations)|add)}'
